@@ -13,8 +13,7 @@ def CompInv (kd : LKind) (p : PS) (shut : Bool) (deliv : Nat) : Prop :=
   match kd with
   | .recd => p.cnt.e = deliv ∧ p.cnt.n = 0 ∧ p.cnt.s = (if shut then 1 else 0)
   | .simpleRec => p.cnt.n = deliv ∧ p.cnt.s = (if shut then 1 else 0)
-  | .batchRec => p.stopped = shut ∧ p.cnt.s = (if shut then 1 else 0) ∧
-      (if shut then p.queued = 0 ∧ p.cnt.n ≤ deliv else p.cnt.n + p.queued = deliv)
+  | .batchRec => p.stopped = shut ∧ p.cnt.s = (if shut then 1 else 0) ∧ p.cnt.n + p.queued = deliv
   | _ => p.cnt.s = 0 ∧ p.cnt.n = 0 ∧ p.cnt.f = 0
 
 /-- the per-index content of the three counter clauses of `Spec.LP.checkStep` -/
@@ -24,8 +23,8 @@ def StepOK (kd : LKind) (isFlush isSd isDone shut' : Bool) (prev cur : Cnt) (del
       cur.f = prev.f + (if isFlush then 1 else 0)
   | .simpleRec => cur.n = deliv' ∧ cur.s = (if shut' then 1 else 0) ∧ cur.f = prev.f + (if isFlush then 1 else 0)
   | .batchRec =>
-      (if isFlush || (isSd && !isDone) then cur.n = deliv'
-       else if isSd then prev.n ≤ cur.n ∧ cur.n ≤ deliv' else cur.n = prev.n) ∧
+      (if (isFlush || isSd) && !isDone then cur.n = deliv'
+       else if isFlush || isSd then prev.n ≤ cur.n ∧ cur.n ≤ deliv' else cur.n = prev.n) ∧
       cur.s = (if shut' then 1 else 0) ∧
       (if isFlush && isDone then prev.f ≤ cur.f ∧ cur.f ≤ prev.f + 1
        else cur.f = prev.f + (if isFlush then 1 else 0))
@@ -47,8 +46,8 @@ theorem comp_emit (kd : LKind) (p : PS) (deliv : Nat) (h : CompInv kd p false de
   simp only at hk; subst hk
   cases kind <;> simp_all [StepOK, CompInv, procEmit] <;> omega
 
-theorem comp_flush (kd : LKind) (p : PS) (deliv : Nat) (done : Bool) (k : Nat) (h : CompInv kd p false deliv) :
-    CompInv kd (procFlush done k p) false deliv ∧ StepOK kd true false done false p.cnt (procFlush done k p).cnt deliv := by
+theorem comp_flush (kd : LKind) (p : PS) (deliv : Nat) (done : Bool) (k x : Nat) (h : CompInv kd p false deliv) :
+    CompInv kd (procFlush done k x p) false deliv ∧ StepOK kd true false done false p.cnt (procFlush done k x p).cnt deliv := by
   obtain ⟨kind, ⟨a, e, f, s, n⟩, st, q⟩ := p
   obtain ⟨hk, h⟩ := h
   simp only at hk; subst hk
@@ -204,13 +203,13 @@ theorem step_inv {kinds s r} (op : Op) (h : Inv kinds s r) :
     | false =>
       have hrs : r.shut = false := by rw [← hsh]; exact hst
       have hstep : step s (.flush c ch) =
-          ({ s with pool := forAll s.n s.pool fun i => procFlush c.done (ch.k i) },
+          ({ s with pool := forAll s.n s.pool fun i => procFlush c.done (ch.k i) (ch.x i) },
             if c.done && (List.range s.n).any (flushErr ch s.pool) then c.err else .ok) := by
         simp [step, hst]
       rw [hstep]; simp only
-      have hcomp : ∀ i, i < kinds.length → _ := fun i hi => comp_flush _ _ _ c.done (ch.k i) (hrs ▸ h.comp i hi)
+      have hcomp : ∀ i, i < kinds.length → _ := fun i hi => comp_flush _ _ _ c.done (ch.k i) (ch.x i) (hrs ▸ h.comp i hi)
       have hpool : ∀ i, i < kinds.length →
-          forAll s.n s.pool (fun i => procFlush c.done (ch.k i)) i = procFlush c.done (ch.k i) (s.pool i) := by
+          forAll s.n s.pool (fun i => procFlush c.done (ch.k i) (ch.x i)) i = procFlush c.done (ch.k i) (ch.x i) (s.pool i) := by
         intro i hi; simp [forAll, hn, hi]
       refine ⟨⟨hn, hsh, hlg, ?_⟩, checkStep_of _ _ _ _ _ _ ?_ ?_ ?_⟩
       · intro i hi; simp only [hpool i hi, hrs, Spec.LP.refStep]; exact (hcomp i hi).1
